@@ -88,6 +88,21 @@ int _skinny_has_vec256(void)
         __cpuid_count(7, 0, eax, ebx, ecx, edx);
         detected = (ebx & (1 << 5)) != 0;
     }
+    /* The operating system must have enabled the YMM registers as well:
+       OSXSAVE says that XGETBV can be used, and bits 1 and 2 of XCR0 say
+       that the SSE and AVX state is preserved across context switches */
+    if (detected) {
+        uint32_t xcr0_low = 0;
+        uint32_t xcr0_high = 0;
+        __cpuid(1, eax, ebx, ecx, edx);
+        if ((ecx & (1 << 27)) != 0) {
+            __asm__ __volatile__ (
+                ".byte 0x0f, 0x01, 0xd0"    /* xgetbv */
+                : "=a"(xcr0_low), "=d"(xcr0_high) : "c"(0)
+            );
+        }
+        detected = (xcr0_low & 6) == 6;
+    }
 #endif
 #endif
 #if defined(SKINNY_C_VERIF)
